@@ -361,6 +361,9 @@ func runSig(c *sigCase) (bool, error) {
 	if err != nil {
 		return false, fmt.Errorf("HARNESS: %v", err)
 	}
+	if !strings.Contains(res.Log, "[INFO] "+strings.ToUpper(c.Signal)+":") {
+		return false, fmt.Errorf("HARNESS: the process log shows no sign that casket's %s handler received the signal (exit code %d)", c.Signal, res.ExitCode)
+	}
 	for _, o := range res.Obs {
 		if o.Hung {
 			return true, fmt.Errorf("step %s hung: %s", o.Op, o.Blocked)
